@@ -135,7 +135,15 @@ where
                                 // Timeout = unhealthy, invoke callback if registered
                                 #[cfg(feature = "tracing")]
                                 if let Some(ref callback) = on_check_failed {
-                                    callback(&ctx_name, &timeout_err);
+                                    // An observer must not be able to make the failed check
+                                    // vanish: a panic here would skip recording it
+                                    if let Err(payload) =
+                                        std::panic::catch_unwind(std::panic::AssertUnwindSafe(
+                                            || callback(&ctx_name, &timeout_err),
+                                        ))
+                                    {
+                                        drop_panic_payload(payload);
+                                    }
                                 }
                                 HealthStatus::Unhealthy
                             }
@@ -438,6 +446,20 @@ where
     fn default() -> Self {
         Self::new()
     }
+}
+
+/// Drops a caught panic payload without letting anything escape: dropping it runs
+/// user code, which may panic again with another such payload.
+#[cfg(feature = "tracing")]
+fn drop_panic_payload(payload: Box<dyn std::any::Any + Send>) {
+    let mut payload = payload;
+    for _ in 0..16 {
+        match std::panic::catch_unwind(std::panic::AssertUnwindSafe(move || drop(payload))) {
+            Ok(()) => return,
+            Err(next) => payload = next,
+        }
+    }
+    std::mem::forget(payload);
 }
 
 #[cfg(test)]
